@@ -206,9 +206,10 @@ class LLHRatioZeroNsTaylorWilksTestStatistic(
             The (N_fitparam,)-shaped 1D numpy ndarray holding the
             values of the first derivative of the log-likelihood ratio function
             w.r.t. each global fit parameter.
-            If set to ``None``, the gradients are calculated by evaluating the
-            log-likelihood ratio function at the given fit parameter values
-            when they are needed, i.e. for ns = 0.
+            This argument is optional. For ns = 0 the gradients are always
+            calculated by evaluating the log-likelihood ratio function at the
+            given fit parameter values, because that evaluation also provides
+            the values the second derivative w.r.t. ns is calculated from.
         tl : instance of TimeLord | None
             The optional instance of TimeLord to measure timing information.
 
@@ -223,10 +224,15 @@ class LLHRatioZeroNsTaylorWilksTestStatistic(
         ns = fitparam_values[ns_pidx]
 
         if ns == 0:
-            if grads is None:
-                (_, grads) = llhratio.evaluate(
-                    fitparam_values=fitparam_values,
-                    tl=tl)
+            # The second derivative w.r.t. ns is calculated from the per-event
+            # first derivatives, which the LLH ratio function caches in its
+            # evaluate method. Evaluate the LLH ratio function at the given
+            # fit parameter values, so that these cached values (and the
+            # gradients) belong to the given fit parameter values and not to
+            # whatever has been evaluated last, or to a previous trial.
+            (_, grads) = llhratio.evaluate(
+                fitparam_values=fitparam_values,
+                tl=tl)
             nsgrad = grads[ns_pidx]
             src_params_recarray = pmm.create_src_params_recarray(
                 gflp_values=fitparam_values)
